@@ -25,7 +25,12 @@ from jinja2.exceptions import TemplateError, TemplateRuntimeError
 from license_expression import ExpressionError
 
 from . import ReuseInfo
-from .comment import CommentStyle, EmptyCommentStyle, PythonCommentStyle
+from .comment import (
+    CommentStyle,
+    EmptyCommentStyle,
+    PythonCommentStyle,
+    split_lines,
+)
 from .copyright import merge_copyright_lines
 from .exceptions import (
     CommentCreateError,
@@ -238,7 +243,7 @@ def _extract_shebang(prefix: str, text: str) -> tuple[str, str]:
     tuple of (shebang, reduced_text).
     """
     shebang_lines = []
-    for line in text.splitlines(keepends=True):
+    for line in split_lines(text, keepends=True):
         if line.startswith(prefix):
             shebang_lines.append(line)
             text = text.replace(line, "", 1)
